@@ -141,35 +141,3 @@ func VerifC13Set() {
 	verifReach("end")
 }
 
-// C13 (API level, no private fields): a bucket set that also sees the rejected requests
-// must behave exactly like a twin that sees the admitted ones and a zero-amount request (clock observation only) in place of each rejected one — rejected requests
-// cost nothing in any bucket, for every history of amounts and gaps.
-func VerifC13Twin() {
-	k := verifParam("k")
-	verifClockInit("t0")
-	rates := NewRateSet()
-	verifAssert("rates-ok", verifAnd(rates.Add(time.Second, 2, 3) == nil, rates.Add(time.Minute, 10, 10) == nil))
-	a := NewTokenBucketSet(rates)
-	b := NewTokenBucketSet(rates)
-	for i := 0; i < k; i++ {
-		_ = verifAdvance(verifName("gap", i), 3000000000)
-		amount := verifInt64(verifName("amount", i))
-		verifAssume(verifAnd(amount >= 1, amount <= 4))
-		da, ea := a.Consume(amount)
-		if ea == nil && da == 0 {
-			db, eb := b.Consume(amount)
-			verifAssert("twin-admits-what-was-admitted", verifAnd(eb == nil, db == 0))
-		} else {
-			// the twin only observes the clock at the same instant (a request of amount 0):
-			// refill bookkeeping is identical, nothing is asked for
-			_, _ = b.Consume(0)
-		}
-	}
-	_ = verifAdvance("gapN", 3000000000)
-	amount := verifInt64("amountN")
-	verifAssume(verifAnd(amount >= 1, amount <= 3))
-	da, ea := a.Consume(amount)
-	db, eb := b.Consume(amount)
-	verifAssert("rejected-requests-cost-nothing", verifAnd((ea == nil) == (eb == nil), da == db))
-	verifReach("end")
-}
